@@ -83,6 +83,7 @@ type BatchStats struct {
 	Counters   map[string]int64 `json:"counters"`
 	Distinct   int              `json:"distinct_in_process"`
 	Violations []string         `json:"violation_files"`
+	Known      []string         `json:"known_finding_files"`
 	Samples    [][]string       `json:"samples"`
 	WallS      float64          `json:"wall_s"`
 	TapeLens   int64            `json:"tape_entries"`
@@ -164,6 +165,7 @@ func runOne(e *Engine, t *tape.Tape, tier string) *core.Run {
 			if engineCrash != nil {
 				panic(engineCrash) // a defect of the harness itself: never a verdict about dst
 			}
+			run.Finish()
 			return run
 		case <-timer.C:
 			fn, stack, ok := hungInDst()
@@ -226,7 +228,15 @@ func cmdBatch(args []string) {
 	first := fs.Int("first", 0, "index of the first run (runs use seeds Mix(seed, first..first+runs-1))")
 	limit := fs.Duration("limit", 0, "stop starting new runs after this wall time")
 	maxViol := fs.Int("maxviol", 3, "stop after this many violations")
+	knownList := fs.String("known", "", "signatures of listed known findings, separated by ';;': recorded once each, never a reason to stop or to exit 1")
 	fs.Parse(args)
+	known := map[string]bool{}
+	for _, k := range strings.Split(*knownList, ";;") {
+		if k != "" {
+			known[k] = true
+		}
+	}
+	knownSeen := map[string]bool{}
 	e := engines[*prop]
 	if e == nil {
 		die(2, "unknown property %q (not built into %s)", *prop, binaryName())
@@ -267,7 +277,19 @@ func cmdBatch(args []string) {
 		if len(st.Samples) < 2 && len(run.Desc) > 0 {
 			st.Samples = append(st.Samples, run.Desc)
 		}
-		if run.Viol != nil {
+		if run.Viol != nil && known[strings.Replace(run.Viol.Sig, " ", "_", -1)] {
+			k := strings.Replace(run.Viol.Sig, " ", "_", -1)
+			st.Counters["known-finding-hits"]++
+			if !knownSeen[k] {
+				knownSeen[k] = true
+				rf := &ReplayFile{Property: *prop, Seed: s, Tier: *tier, Tape: t.Used(), Violation: run.Viol,
+					Description: run.Desc, Events: tail(run.Events, 200), Binary: binaryName(),
+					Context: &BatchContext{BatchSeed: *seed, First: *first, Index: i}}
+				p := filepath.Join(*out, fmt.Sprintf("known-%d-%d.json", *id, i))
+				writeJSON(p, rf)
+				st.Known = append(st.Known, p)
+			}
+		} else if run.Viol != nil {
 			rf := &ReplayFile{Property: *prop, Seed: s, Tier: *tier, Tape: t.Used(), Violation: run.Viol,
 				Description: run.Desc, Events: tail(run.Events, 200), Binary: binaryName(),
 				Context: &BatchContext{BatchSeed: *seed, First: *first, Index: i}}
